@@ -38,10 +38,9 @@ class KitClass(object):
 
 
 def load_lettermap(p: Program) -> LetterMap:
-    ci = p.get_class("moclo.regex.DNARegex")
-    raw = ci.attrs.get("_lettermap")
-    if not isinstance(raw, ast.Dict):
-        raise AnalysisError("anchor vanished: DNARegex._lettermap is not a dict literal")
+    from .roles import letter_table
+
+    _, raw = letter_table(p)
     try:
         table = ast.literal_eval(raw)
     except Exception:
